@@ -107,6 +107,7 @@ fn main() {
                 xs.set_binary_input(b).unwrap();
             }
             "recording" => xs.set_recording_enabled(words[0] == "on"),
+            "intercept" => xs.intercept_output(words[0] == "on").unwrap(),
             "limit" => {
                 let n = if words[1] == "none" { None } else { Some(words[1].parse::<usize>().unwrap()) };
                 match words[0] {
